@@ -269,6 +269,7 @@ func Enumerate(body *ast.BlockStmt, c Config) (paths []Path, overflow bool) {
 		if ctl != "ret" && ctl != "panic" {
 			cp = append(cp, Event{Kind: "END"})
 		}
+		cp = e.runDeferred(body, cp, ctl)
 		e.out = append(e.out, cp)
 	})
 	return e.out, e.overflow
@@ -1105,4 +1106,40 @@ func (e *enumerator) invariantFlag(c ast.Expr, loop *ast.ForStmt) bool {
 		check(loop.Post)
 	}
 	return !touched
+}
+
+// runDeferred: the plain calls deferred by the function under enumeration (defer x.f(args), not a
+// deferred closure) run when the function returns, last deferred first, after the results have been
+// evaluated. Their events — whatever the rule's classifier makes of the call as a statement — are put
+// in front of the closing RET/END of a path that passed the defer statement, so that a rule sees
+// `defer c.Broadcast()` at the top like a Broadcast in front of every return.
+func (e *enumerator) runDeferred(body *ast.BlockStmt, p Path, ctl string) Path {
+	if e.c.Classify == nil || ctl == "panic" || len(p) == 0 {
+		return p
+	}
+	var evs []Event
+	for i := len(p) - 1; i >= 0; i-- {
+		if p[i].Kind != "DEFER" {
+			continue
+		}
+		ds, ok := p[i].Node.(*ast.DeferStmt)
+		if !ok || ds.Call == nil {
+			continue
+		}
+		if _, isLit := ast.Unparen(ds.Call.Fun).(*ast.FuncLit); isLit {
+			continue
+		}
+		// only defers of the function itself (not of a followed helper)
+		if ds.Pos() < body.Pos() || ds.End() > body.End() {
+			continue
+		}
+		evs = append(evs, e.c.Classify(&ast.ExprStmt{X: ds.Call})...)
+	}
+	if len(evs) == 0 {
+		return p
+	}
+	last := p[len(p)-1]
+	out := append(Path{}, p[:len(p)-1]...)
+	out = append(out, evs...)
+	return append(out, last)
 }
